@@ -458,6 +458,16 @@ func readContractFile(path, pkg string) ([]*Contract, error) {
 			last = nil
 			continue
 		}
+		if strings.HasPrefix(body, "stream ") {
+			d, err := parseStreamDef(body, where, pkg)
+			if err != nil {
+				return nil, err
+			}
+			fileStreams = append(fileStreams, d)
+			cur = nil
+			last = nil
+			continue
+		}
 		if strings.HasPrefix(body, "lemma ") {
 			m := reLemma.FindStringSubmatch(body)
 			if m == nil {
@@ -529,7 +539,7 @@ func readContractFile(path, pkg string) ([]*Contract, error) {
 						cl.Names = append(cl.Names, n)
 					}
 				}
-			case "use":
+			case "use", "thenuse":
 				e, err := parseSpec(cl.Text)
 				if err != nil {
 					return nil, fmt.Errorf("%s: %v", cl.Where, err)
